@@ -702,6 +702,9 @@ func (self *LockDB) FreeCollect() error {
 }
 
 func (self *LockDB) startCheckLoop() {
+	if verifManualClock() {
+		return
+	}
 	timeoutWaiter, expriedWaiter, removeLockManagerWaiter := make(chan struct{}, 16), make(chan struct{}, 16), make(chan struct{}, 1)
 	go self.updateCurrentTime(timeoutWaiter, expriedWaiter, removeLockManagerWaiter)
 	go self.checkTimeOut(timeoutWaiter)
@@ -1763,6 +1766,7 @@ func (self *LockDB) doTimeOut(lock *Lock, forcedExpried bool, removeWaited bool)
 
 	_ = lockProtocol.ProcessLockResultCommandLocked(lockCommand, protocol.RESULT_TIMEOUT, uint16(lockManager.locked), lock.locked, lockManager.GetLockData())
 	if lockLocked > 0 {
+		verifPoint(3)
 		self.wakeUpWaitLocks(lockManager, nil)
 	} else {
 		if timeoutFlag&protocol.TIMEOUT_FLAG_REVERSE_KEY_LOCK_WHEN_TIMEOUT != 0 {
@@ -1941,6 +1945,7 @@ func (self *LockDB) doExpried(lock *Lock, forcedExpried bool, removeWaited bool)
 		_ = lockProtocol.FreeLockCommandLocked(lockCommand)
 	}
 
+	verifPoint(4)
 	self.wakeUpWaitLocks(lockManager, nil)
 	if expriedFlag&protocol.EXPRIED_FLAG_REVERSE_KEY_LOCK_WHEN_EXPRIED != 0 {
 		lockCommand.ExpriedFlag = 0
@@ -2221,6 +2226,7 @@ func (self *LockDB) Lock(serverProtocol ServerProtocol, command *protocol.LockCo
 
 			_ = serverProtocol.ProcessLockResultCommand(command, protocol.RESULT_SUCCED, uint16(lockManager.locked), lock.locked, lockData)
 			if requireWakeup {
+				verifPoint(1)
 				self.wakeUpWaitLocks(lockManager, serverProtocol)
 			}
 			return nil
@@ -2247,6 +2253,7 @@ func (self *LockDB) Lock(serverProtocol ServerProtocol, command *protocol.LockCo
 		_ = serverProtocol.ProcessLockResultCommand(command, protocol.RESULT_SUCCED, uint16(lockManager.locked), lock.locked, lockData)
 		_ = serverProtocol.FreeLockCommand(command)
 		if requireWakeup {
+			verifPoint(1)
 			self.wakeUpWaitLocks(lockManager, serverProtocol)
 		}
 		return nil
@@ -2510,6 +2517,7 @@ func (self *LockDB) UnLock(serverProtocol ServerProtocol, command *protocol.Lock
 		}
 	}
 
+	verifPoint(2)
 	self.wakeUpWaitLocks(lockManager, serverProtocol)
 	return nil
 }
@@ -2571,6 +2579,7 @@ func (self *LockDB) wakeUpWaitLocks(lockManager *LockManager, serverProtocol Ser
 			}
 
 			self.wakeUpWaitLock(lockManager, waitLock, serverProtocol)
+			verifPoint(7)
 			lockManager.glock.Lock()
 			waitLock = lockManager.GetWaitLock()
 		}
@@ -2722,6 +2731,7 @@ func (self *LockDB) cancelWaitLock(lockManager *LockManager, command *protocol.L
 	_ = lockProtocol.FreeLockCommandLocked(lockCommand)
 
 	if lockLocked > 0 {
+		verifPoint(5)
 		self.wakeUpWaitLocks(lockManager, nil)
 	}
 }
@@ -2790,6 +2800,7 @@ func (self *LockDB) unlockTreeLock(serverProtocol ServerProtocol, command *proto
 }
 
 func (self *LockDB) DoAckLock(lock *Lock, succed bool) {
+	verifPoint(8)
 	lockManager := lock.manager
 	lockManager.glock.Lock()
 
@@ -2890,6 +2901,7 @@ func (self *LockDB) DoAckLock(lock *Lock, succed bool) {
 	_ = lockProtocol.ProcessLockResultCommandLocked(lockCommand, protocol.RESULT_ERROR, uint16(lockManager.locked), lock.locked, lockManager.GetLockData())
 	_ = lockProtocol.FreeLockCommandLocked(lockCommand)
 
+	verifPoint(6)
 	self.wakeUpWaitLocks(lockManager, nil)
 }
 
